@@ -146,3 +146,168 @@ class ext_dedent:
     def returns(text):
         return textwrap_dedent(text)
     modifies = []
+
+
+# ------------------------------------------------------------------------------------------------ T-OS
+# The observable effects of a run are recorded in the ghost object WORLD (DESIGN.md C18):
+#   made: directories handed to os.makedirs;  wpaths/wdata: files written (path, content);  out: lines printed.
+GHOST_FIELDS.update({
+    "World.made": "glist[str]", "World.wpaths": "glist[str]", "World.wdata": "glist[str]", "World.out": "glist[str]",
+})
+EXTERNAL_CLASSES.update({"World": {"bases": []}, "PathSpec": {"bases": []}})
+GHOST_FIELDS.update({"PathSpec.g_patterns": "list[str]"})
+
+
+@contract("ext:os.path.isdir")
+class ext_isdir:
+    trusted = True
+    types = {"_params": ["p"], "p": "str", "return": "bool"}
+
+    def returns(p):
+        return fs_isdir(p) or exists(0, len(WORLD.made), lambda i: WORLD.made[i] == p)
+    modifies = []
+
+
+@contract("ext:os.path.isfile")
+class ext_isfile:
+    trusted = True
+    types = {"_params": ["p"], "p": "str", "return": "bool"}
+
+    def returns(p):
+        return fs_isfile(p)
+    modifies = []
+
+
+@contract("ext:os.path.exists")
+class ext_exists:
+    trusted = True
+    types = {"_params": ["p"], "p": "str", "return": "bool"}
+
+    def returns(p):
+        return fs_exists(p)
+
+    def ensures(p, result):
+        return (not fs_isdir(p) or result) and (not fs_isfile(p) or result) and not (fs_isdir(p) and fs_isfile(p))
+    modifies = []
+
+
+@contract("ext:os.path.join")
+class ext_join:
+    trusted = True
+    types = {"_params": ["a", "b"], "a": "str", "b": "str", "return": "str"}
+
+    def returns(a, b):
+        return path_join(a, b)
+    modifies = []
+
+
+@contract("ext:os.path.relpath")
+class ext_relpath:
+    trusted = True
+    types = {"_params": ["p", "start"], "p": "str", "start": "str", "return": "str"}
+
+    def returns(p, start):
+        return path_relpath(p, start)
+    modifies = []
+
+
+@contract("ext:os.path.basename")
+class ext_basename:
+    trusted = True
+    types = {"_params": ["p"], "p": "str", "return": "str"}
+
+    def returns(p):
+        return path_basename(p)
+    modifies = []
+
+
+@contract("ext:os.path.dirname")
+class ext_dirname:
+    trusted = True
+    types = {"_params": ["p"], "p": "str", "return": "str"}
+
+    def returns(p):
+        return path_dirname(p)
+    modifies = []
+
+
+@contract("ext:os.path.abspath")
+class ext_abspath:
+    trusted = True
+    types = {"_params": ["p"], "p": "str", "return": "str"}
+
+    def returns(p):
+        return path_abspath(p)
+    modifies = []
+
+
+@contract("ext:os.path.normpath")
+class ext_normpath:
+    trusted = True
+    types = {"_params": ["p"], "p": "str", "return": "str"}
+
+    def returns(p):
+        return path_normpath(p)
+    modifies = []
+
+
+@contract("ext:os.makedirs")
+class ext_makedirs:
+    """creates p and missing ancestors, nothing else (exist_ok=True: no error if present)"""
+    trusted = True
+    types = {"_params": ["p", "exist_ok"], "_defaults": {"exist_ok": False}, "p": "str", "exist_ok": "bool"}
+
+    def requires(p, exist_ok):
+        return exist_ok
+
+    def ensures(p, exist_ok):
+        return (len(WORLD.made) == len(old.WORLD.made) + 1 and WORLD.made[-1] == p and
+                forall(0, len(old.WORLD.made), lambda i: WORLD.made[i] == old.WORLD.made[i]))
+    modifies = ["items(WORLD.made)"]
+
+
+@contract("ext:file.write")
+class ext_file_write:
+    """open(path, 'w') ... write(text): the file `path` now holds `text`; no other file is touched"""
+    trusted = True
+    types = {"_params": ["path", "text"], "path": "str", "text": "str"}
+
+    def ensures(path, text):
+        return (len(WORLD.wpaths) == len(old.WORLD.wpaths) + 1 and WORLD.wpaths[-1] == path and
+                len(WORLD.wdata) == len(old.WORLD.wdata) + 1 and WORLD.wdata[-1] == text and
+                forall(0, len(old.WORLD.wpaths), lambda i: WORLD.wpaths[i] == old.WORLD.wpaths[i] and
+                       WORLD.wdata[i] == old.WORLD.wdata[i]))
+    modifies = ["items(WORLD.wpaths)", "items(WORLD.wdata)"]
+
+
+@contract("ext:print")
+class ext_print:
+    """print(x): x followed by print's own line terminator on standard output"""
+    trusted = True
+    types = {"_params": ["x"], "x": "str"}
+
+    def ensures(x):
+        return (len(WORLD.out) == len(old.WORLD.out) + 1 and WORLD.out[-1] == x + "\n" and
+                forall(0, len(old.WORLD.out), lambda i: WORLD.out[i] == old.WORLD.out[i]))
+    modifies = ["items(WORLD.out)"]
+
+
+@contract("ext:copy.deepcopy")
+class ext_deepcopy:
+    """a fresh object graph, disjoint from the original (here: a Settings object)"""
+    trusted = True
+    types = {"_params": ["x"], "x": "ref:Settings", "return": "ref:Settings"}
+    result_exact = True
+
+    def ensures(x, result):
+        return (fresh(result) and fresh(result.rst) and fresh(result.input) and fresh(result.output) and
+                result.rst.prefix == x.rst.prefix and
+                result.rst.module_path_separator == x.rst.module_path_separator and
+                result.rst.file_extensions_in_titles == x.rst.file_extensions_in_titles and
+                result.rst.file_extensions_in_modules == x.rst.file_extensions_in_modules and
+                (result.rst.headers is None) == (x.rst.headers is None) and
+                (x.rst.headers is None or (len(result.rst.headers) == len(x.rst.headers) and
+                                           forall(0, len(x.rst.headers),
+                                                  lambda i: result.rst.headers[i] == x.rst.headers[i]))) and
+                result.output.directory == x.output.directory)
+    modifies = []
